@@ -285,6 +285,7 @@ class Interp:
         if ci is None:
             raise Unsupported(f"instantiate {cref.qualname}")
         obj = SObj(ci.qualname, owner="call")
+        obj.handbuilt = False
         self.allocs.append(obj)
         r = self.repo.find_method(ci, "__init__")
         if r:
@@ -312,6 +313,10 @@ class Interp:
                 ca = self.repo.find_class_attr(ci, name)
                 if ca:
                     return self.eval(ca[1], self.module_env(ca[0].module))
+            if ov.handbuilt and self.call_depth > 0:
+                # the object was modelled by a contract with a fixed set of attributes: an attribute outside that
+                # model means "needs contract", not a defect of the code
+                raise Unsupported(f"attribute {name} of {ov.cls.split('.')[-1]} is not part of the contract's object model")
             raise PyRaise("AttributeError", f"{ov.cls}.{name}")
         if isinstance(ov, SuperRef):
             ci = self.repo.find_class(ov.after_cls)
